@@ -718,7 +718,22 @@ def check_modifiability(node: vy_ast.ExprNode, modifiability: Modifiability) -> 
         if hasattr(call_type, "check_modifiability_for_call"):
             return call_type.check_modifiability_for_call(node, modifiability)
 
+    if isinstance(node, vy_ast.Subscript):
+        # the index is part of the value: `A[block.number % 3]` is not a
+        # constant even if `A` is one
+        if not check_modifiability(node.slice, modifiability):
+            return False
+
     info = get_expr_info(node)
+
+    if isinstance(node, vy_ast.Attribute) and modifiability == Modifiability.CONSTANT:
+        # the members of an address (balance, code, codesize, ...) read
+        # the chain state; they are not compile-time constants even if
+        # the address is one
+        value_t = get_expr_info(node.value, is_callable=True).typ
+        if isinstance(value_t, AddressT) and node.attr in AddressT._type_members:
+            return False
+
     return info.modifiability <= modifiability
 
 
